@@ -191,6 +191,23 @@ def decodeSlot (P : Params) (S : Schema) (dt : Ty → Bytes → Val → Outcome 
     | .err e => .err e
     | .panic p => .panic p
 
+/-- the field a message field (id, wire tag) is decoded into, if any: `sd.GetField(fid)` plus the
+    wire-type comparison -/
+def lookupKnown (sd : SDesc) (id tag : Nat) : Option (Nat × Field) :=
+  match findField sd.fields id 0 with
+  | some (ix, f) => if f.ty.wire = tag then some (ix, f) else none
+  | none => none
+
+/-- decode the value of a known field into its slot -/
+def decodeField (P : Params) (S : Schema) (total : Nat) (dt : Ty → Bytes → Val → Outcome (Val × Bytes))
+    (f : Field) (b : Bytes) (slot : Val) : Outcome (Val × Bytes) :=
+  if P.fixedSize f.ty.tt = 0 && f.nocopy then
+    match decodeStr f.ty.isBinary true total b with
+    | .ok (v, r2) => .ok (wrapPtr f.ty v, r2)
+    | .err e => .err e
+    | .panic p => .panic p
+  else decodeSlot P S dt true f.ty b slot
+
 def fieldLoop (P : Params) (S : Schema) (sd : SDesc) (total : Nat)
     (dt : Ty → Bytes → Val → Outcome (Val × Bytes)) :
     Nat → Bytes → LoopSt → Outcome (LoopSt × Bytes)
@@ -203,11 +220,7 @@ def fieldLoop (P : Params) (S : Schema) (sd : SDesc) (total : Nat)
       match rd16 r with
       | none => .err .short
       | some (fid, r1) =>
-        let known : Option (Nat × Field) :=
-          match findField sd.fields fid 0 with
-          | some (ix, f) => if f.ty.wire = tp.toNat then some (ix, f) else none
-          | none => none
-        match known with
+        match lookupKnown sd fid tp.toNat with
         | none =>
           match skipM P tp.toNat r1 with
           | .ok n =>
@@ -216,15 +229,7 @@ def fieldLoop (P : Params) (S : Schema) (sd : SDesc) (total : Nat)
           | .err e => .err (if e == .depth then .depth else .skip)
           | .panic p => if P.skipRecovers then .err .skip else .panic p   -- `skipUnknown` recovers
         | some (ix, f) =>
-          let slot := st.fs.getD ix default
-          let res : Outcome (Val × Bytes) :=
-            if P.fixedSize f.ty.tt = 0 && f.nocopy then
-              match decodeStr f.ty.isBinary true total r1 with
-              | .ok (v, r2) => .ok (wrapPtr f.ty v, r2)
-              | .err e => .err e
-              | .panic p => .panic p
-            else decodeSlot P S dt true f.ty r1 slot
-          match res with
+          match decodeField P S total dt f r1 (st.fs.getD ix default) with
           | .ok (v, r2) =>
             fieldLoop P S sd total dt cnt r2 { st with fs := st.fs.set ix v, seen := f.id :: st.seen }
           | .err e => .err e
